@@ -57,7 +57,7 @@ def _method(ctx, clsname, name):
     return cls, f
 
 
-class CoreDomain(effects.EffectDomain):
+class CoreDomain(DeferredDomain):
     enter_returns_self = True
 
     def call(self, interp, call, st, fr):
@@ -359,7 +359,7 @@ def check_run_cleanups(ctx):
 
     dom = DeferredDomain(ctx.classes, attrs={"self": ("self",), "self.case": CASE}, oracle=oracle, log_cap=20)
     entry = ("tuple", ("tuple", C1, ("tuple", ("sym", "a1")), ("kwdict", ())), ("tuple", C2, ("tuple",), ("kwdict", ())))
-    res = effects.run(ctx, dom, f, cls, {}, state=State([("self.case._cleanups", entry)]), depth=5)
+    res = effects.run(ctx, dom, f, cls, {}, state=State([("obj.case._cleanups", entry)]), depth=5)
     problems = set()
     seen = set()
     for r in res:
@@ -382,7 +382,7 @@ def check_run_cleanups(ctx):
         want = raised[-1] if raised else NONE
         if r.value != want:
             problems.add(f"with outcomes {fates} _run_cleanups returns {r.value!r}; expected {'the exception of the last failing cleanup' if raised else 'None'}")
-        if r.state.get("self.case._cleanups", None) != ("tuple",):
+        if r.state.get("obj.case._cleanups", None) != ("tuple",):
             problems.add("cleanups are left on the case after _run_cleanups")
     if len(seen) < 9:
         problems.add(f"only {len(seen)} of the 9 outcome combinations of two cleanups were reached")
@@ -397,7 +397,7 @@ def check_run_cleanups(ctx):
 def check_log_user_exception(ctx):
     cls, f = _method(ctx, ADRT, "_log_user_exception")
     ERR = ("wobj", "the-error")
-    dom = effects.EffectDomain(ctx.classes, attrs={"self": ("self",)}, results={"self._got_user_exception": [SENTINEL]}, track=lambda d: d == "self._got_user_exception")
+    dom = DeferredDomain(ctx.classes, attrs={"self": ("self",)}, results={"self._got_user_exception": [SENTINEL]}, track=lambda d: d == "self._got_user_exception")
     res = effects.run(ctx, dom, f, cls, {f.args.args[1].arg: ERR}, state=State(), depth=3)
     normal = [r for r in res if r.kind == "val"]
     problems = set()
@@ -426,7 +426,7 @@ def check_observers(ctx):
                 return [("val", NONE), ("exc", ("exc", "ObserverError"))]
             return None
 
-        dom = effects.EffectDomain(ctx.classes, attrs={"self": ("self",), "self._observers": ("tuple", O1, O2), "self._log_publisher": PUB},
+        dom = DeferredDomain(ctx.classes, attrs={"self": ("self",), "self._observers": ("tuple", O1, O2), "self._log_publisher": PUB},
                                    results={"_get_global_publisher_and_observers": [("tuple", PUB, ("tuple", O1, O2))], "self.addCleanup": [NONE]},
                                    track=lambda d: d == "self.addCleanup", oracle=oracle, log_cap=20)
         res = effects.run(ctx, dom, f, cls, {}, state=State(), depth=3)
@@ -457,7 +457,7 @@ def check_observers(ctx):
     problems = set()
     n = 0
     for glp, want in ((("wobj", "modern"), ("tuple", ("wobj", "modern"), ("tuple", O1, O2))), (NONE, ("tuple", ("wobj", "legacy"), ("tuple", O2)))):
-        dom = effects.EffectDomain(ctx.classes, attrs={"globalLogPublisher": glp, "log.theLogPublisher": ("wobj", "legacy"), "modern._observers": ("tuple", O1, O2), "legacy.observers": ("tuple", O2),
+        dom = DeferredDomain(ctx.classes, attrs={"globalLogPublisher": glp, "log.theLogPublisher": ("wobj", "legacy"), "modern._observers": ("tuple", O1, O2), "legacy.observers": ("tuple", O2),
                                                        "modern.observers": ("tuple",), "legacy._observers": ("tuple",)})
         res = effects.run(ctx, dom, g, None, {}, state=State(), depth=2)
         n += len(res)
@@ -471,7 +471,7 @@ def check_observers(ctx):
     n = 0
     for suppress in (True, False):
         for store in (True, False):
-            dom = effects.EffectDomain(ctx.classes, attrs={"self": ("self",), "self._suppress_twisted_logging": TRUE if suppress else FALSE, "self._store_twisted_logs": TRUE if store else FALSE},
+            dom = DeferredDomain(ctx.classes, attrs={"self": ("self",), "self._suppress_twisted_logging": TRUE if suppress else FALSE, "self._store_twisted_logs": TRUE if store else FALSE},
                                        ctors={"_NoTwistedLogObservers", "CaptureTwistedLogs", "CompoundFixture"})
             res = effects.run(ctx, dom, glf, cls, {}, state=State(), depth=2)
             n += len(res)
